@@ -176,18 +176,31 @@ fn c04_quic_cause_mapping() {
     kani::cover!(true, "reached");
 }
 
-fn datagram_roundtrip<const P: usize>() {
-    let sid = any_session_id();
+/// a valid session id whose quarter-stream-id varint has exactly 1 << CLS bytes
+fn session_id_of_class<const CLS: u8>() -> SessionId {
+    let q: u64 = kani::any();
+    match CLS {
+        0 => kani::assume(q < (1 << 6)),
+        1 => kani::assume(q >= (1 << 6) && q < (1 << 14)),
+        2 => kani::assume(q >= (1 << 14) && q < (1 << 30)),
+        _ => kani::assume(q >= (1 << 30) && q <= (1u64 << 60) - 1),
+    }
+    SessionId::try_from_session_stream(StreamId::new(VarInt::try_from_u64(q << 2).unwrap())).unwrap()
+}
+
+/// the real `Datagram::write` allocates `vec![0; header + payload]`: the quarter-id length class and the payload length
+/// are fixed per instance so that this allocation has a concrete size (a symbolic-size allocation exhausts 16 GB)
+fn datagram_roundtrip<const CLS: u8, const LEN: usize, const PAYLOAD_FN: bool>() {
+    let sid = session_id_of_class::<CLS>();
     let qv = sid.into_u64() >> 2;
-    let p: [u8; P] = kani::any();
-    let len: usize = kani::any();
-    kani::assume(len <= P);
-    let d = h::datagram_write(sid, &p[..len]);
+    let p: [u8; LEN] = kani::any();
+    let len = LEN;
+    let d = h::datagram_write(sid, &p[..]);
     // application view of an outgoing datagram: payload only
     assert!(d.len() == len, "Deref exposes framing bytes");
     assert!(d.session_id() == sid);
     let hs = h::datagram_header_size(sid);
-    assert!(hs == ref_varint_len(qv), "header_size differs from the quarter-stream-id varint length");
+    assert!(hs == ref_varint_len(qv) && hs == 1usize << CLS, "header_size differs from the quarter-stream-id varint length");
     let wire = h::datagram_into_quic_bytes(d);
     // size identity: this is what makes `payload <= max_datagram_size` <=> quinn accepts
     assert!(wire.len() == hs + len, "wire length != header_size + payload length");
@@ -206,41 +219,69 @@ fn datagram_roundtrip<const P: usize>() {
         assert!(back[i] == p[i], "payload byte altered");
         i += 1;
     }
-    let pl = back.payload();
-    assert!(pl.len() == len);
-    let mut i = 0;
-    while i < len {
-        assert!(pl[i] == p[i], "payload() differs from the sent bytes");
-        i += 1;
+    if PAYLOAD_FN {
+        // `payload()` goes through `Bytes::slice` (reference-counted clone): checked in dedicated instances only
+        let pl = back.payload();
+        assert!(pl.len() == len);
+        let mut i = 0;
+        while i < len {
+            assert!(pl[i] == p[i], "payload() differs from the sent bytes");
+            i += 1;
+        }
+        core::mem::forget(pl);
     }
-    kani::cover!(hs == 8 && len == P, "8-byte quarter id, full payload");
-    kani::cover!(len == 0, "empty payload");
-    core::mem::forget(pl);
+    kani::cover!(true, "round trip completed");
     core::mem::forget(back);
 }
 
-// @h props=C03,C16,C17 tier=quick t=1800 sub=datagram-roundtrip
+macro_rules! dgram_rt {
+    ($name:ident, $cls:literal, $len:literal, $pl:literal) => {
+        #[kani::proof]
+        #[kani::unwind(10)]
+        fn $name() {
+            datagram_roundtrip::<$cls, $len, $pl>()
+        }
+    };
+}
+
+// @h props=C03,C16,C17 tier=quick t=1800 mem=20 sub=datagram-roundtrip
 // @fn wtransport/src/datagram.rs Datagram::{write,read,payload,deref,session_id,header_size,into_quic_bytes}; wtransport-proto/src/datagram.rs Datagram::{new,write,read,write_size,header_size}
-// @bound every session id (4q, q < 2^60); payload of symbolic length 0..=4, symbolic content; real bytes::Bytes
-// @oracle read(write(sid,p)): same session id, payload byte-identical through Deref and payload(); wire == varint(sid/4)||p (reference encoder); wire length == header_size(sid) + |p|; no framing byte visible
-// @outside payloads > 4 bytes (thorough: 8); loss/reordering/duplication (quinn)
-#[kani::proof]
-#[kani::unwind(10)]
-fn c03_datagram_roundtrip_p4() {
-    datagram_roundtrip::<4>()
-}
+// @bound every session id whose quarter id is a 1-byte varint; payload of exactly 3 symbolic bytes; real bytes::Bytes
+// @oracle read(write(sid,p)): same session id, payload byte-identical through Deref (payload() in the thorough instance c03_datagram_roundtrip_payload_fn); wire == varint(sid/4)||p (reference encoder); wire length == header_size(sid) + |p|; no framing byte visible
+// @outside payload lengths other than the instance's (instances: 0, 3 quick; 1, 8 thorough); loss/reordering/duplication (quinn)
+dgram_rt!(c03_datagram_roundtrip_id1_p3, 0, 3, false);
 
-// @h props=C03 tier=thorough t=3600 sub=datagram-roundtrip
+// @h props=C03,C16,C17 tier=quick t=1800 mem=20 sub=datagram-roundtrip
+// @fn wtransport/src/datagram.rs Datagram::{write,read,payload,deref,session_id,header_size,into_quic_bytes}
+// @bound every session id whose quarter id is an 8-byte varint (2^30 <= q < 2^60); payload of exactly 3 symbolic bytes
+// @oracle as c03_datagram_roundtrip_id1_p3
+dgram_rt!(c03_datagram_roundtrip_id8_p3, 3, 3, false);
+
+// @h props=C03,C16 tier=quick t=1800 mem=20 sub=datagram-roundtrip
 // @fn wtransport/src/datagram.rs Datagram::{write,read,payload,deref}
-// @bound as c03_datagram_roundtrip_p4 with payload 0..=8
-// @oracle as c03_datagram_roundtrip_p4
-#[kani::proof]
-#[kani::unwind(10)]
-fn c03_datagram_roundtrip_p8() {
-    datagram_roundtrip::<8>()
-}
+// @bound every session id whose quarter id is a 2-byte varint; empty payload
+// @oracle as c03_datagram_roundtrip_id1_p3
+dgram_rt!(c03_datagram_roundtrip_id2_p0, 1, 0, false);
 
-// @h props=C03,C17,C11 tier=quick t=1800 sub=datagram-receive
+// @h props=C03 tier=thorough t=3600 mem=24 sub=datagram-roundtrip
+// @fn wtransport/src/datagram.rs Datagram::{write,read,payload,deref}
+// @bound every session id whose quarter id is a 4-byte varint; payload of exactly 8 symbolic bytes
+// @oracle as c03_datagram_roundtrip_id1_p3
+dgram_rt!(c03_datagram_roundtrip_id4_p8, 2, 8, false);
+
+// @h props=C03 tier=thorough t=3600 mem=24 sub=datagram-roundtrip
+// @fn wtransport/src/datagram.rs Datagram::{write,read,payload,deref}
+// @bound every session id whose quarter id is an 8-byte varint; payload of exactly 1 symbolic byte
+// @oracle as c03_datagram_roundtrip_id1_p3
+dgram_rt!(c03_datagram_roundtrip_id8_p1, 3, 1, false);
+
+// @h props=C03 tier=thorough t=3600 mem=24 sub=datagram-roundtrip-payload-fn
+// @fn wtransport/src/datagram.rs Datagram::{write,read,payload}
+// @bound every session id whose quarter id is a 1-byte varint; payload of exactly 2 symbolic bytes; additionally reads the payload through `Datagram::payload()` (Bytes::slice)
+// @oracle as c03_datagram_roundtrip_id1_p3, and payload() == the sent bytes
+dgram_rt!(c03_datagram_roundtrip_payload_fn, 0, 2, true);
+
+// @h props=C03,C17,C11 tier=quick t=1800 mem=20 sub=datagram-receive covers=any
 // @fn wtransport/src/datagram.rs Datagram::{read,payload,deref,session_id}
 // @bound every received QUIC datagram of length 0..=10 (real bytes::Bytes)
 // @oracle total; Ok <=> a complete quarter id q <= 2^60-1 leads; session id == 4q (a client-initiated bidirectional stream id); payload == exact suffix; otherwise H3_DATAGRAM_ERROR
@@ -250,20 +291,26 @@ fn c03_datagram_receive() {
     let b: [u8; 10] = kani::any();
     let len: usize = kani::any();
     kani::assume(len <= 10);
-    // one allocation site per length (a symbolic-size Bytes allocation makes CBMC run out of memory)
-    let wire = match len {
-        0 => bytes::Bytes::copy_from_slice(&b[..0]),
-        1 => bytes::Bytes::copy_from_slice(&b[..1]),
-        2 => bytes::Bytes::copy_from_slice(&b[..2]),
-        3 => bytes::Bytes::copy_from_slice(&b[..3]),
-        4 => bytes::Bytes::copy_from_slice(&b[..4]),
-        5 => bytes::Bytes::copy_from_slice(&b[..5]),
-        6 => bytes::Bytes::copy_from_slice(&b[..6]),
-        7 => bytes::Bytes::copy_from_slice(&b[..7]),
-        8 => bytes::Bytes::copy_from_slice(&b[..8]),
-        9 => bytes::Bytes::copy_from_slice(&b[..9]),
-        _ => bytes::Bytes::copy_from_slice(&b[..10]),
-    };
+    // one call site per length: the Bytes allocation has a concrete size AND the pointers stay concrete (selecting
+    // among allocations with a symbolic index is over-approximated by CBMC and gave a spurious counterexample)
+    match len {
+        0 => receive_check::<0>(&b),
+        1 => receive_check::<1>(&b),
+        2 => receive_check::<2>(&b),
+        3 => receive_check::<3>(&b),
+        4 => receive_check::<4>(&b),
+        5 => receive_check::<5>(&b),
+        6 => receive_check::<6>(&b),
+        7 => receive_check::<7>(&b),
+        8 => receive_check::<8>(&b),
+        9 => receive_check::<9>(&b),
+        _ => receive_check::<10>(&b),
+    }
+}
+
+fn receive_check<const LEN: usize>(b: &[u8; 10]) {
+    let len = LEN;
+    let wire = bytes::Bytes::copy_from_slice(&b[..LEN]);
     let got = h::datagram_read(wire);
     // reference varint decode
     let refd = if len == 0 {
